@@ -83,12 +83,13 @@ def configs(tier, seed):
             out.append({"cls": cls, "shape": list(sh), "init": None})
     # "a field's data output always equals what a bus read of it returns" / "reserved fields influence nothing":
     # the action placed in a register between a reserved field and another field, read through the element port
-    for sh in shapes[:6]:
+    for sh in [x for x in shapes if _width(x) <= 9][:6] + [x for x in shapes if x[0] == "s"][:4] + [("e3", 0), ("e2s", 0)]:
         for cls in ("RW", "RW1C", "RW1S"):
             if sh[0].startswith("e") and cls != "RW":
                 continue
             for res in ("ResRAW0", "ResR0WA"):
-                out.append({"cls": cls, "shape": list(sh), "init": 1 if _width(sh) else 0, "inreg": res})
+                init = {"e3": 5, "e2s": 2}.get(sh[0], ((1 << _width(sh)) - 1) if sh[0] == "s" else (1 if _width(sh) else 0))
+                out.append({"cls": cls, "shape": list(sh), "init": init, "inreg": res})
     return out
 
 
